@@ -383,6 +383,7 @@ def attach(tr):
         return process_order_package
 
     _wrap(_FS, "process_order_package", mk_pop)
+    _wrap(BaseFlumine, "process_order_package", mk_pop)
 
     # ---- effects (simulated execution) ---------------------------------------------------
     def mk_exec(kind):
@@ -422,6 +423,12 @@ def attach(tr):
     _wrap(SimulatedExecution, "execute_cancel", mk_exec("CANCEL"))
     _wrap(SimulatedExecution, "execute_update", mk_exec("UPDATE"))
     _wrap(SimulatedExecution, "execute_replace", mk_exec("REPLACE"))
+    from flumine.execution.betfairexecution import BetfairExecution
+
+    _wrap(BetfairExecution, "execute_place", mk_exec("PLACE"))
+    _wrap(BetfairExecution, "execute_cancel", mk_exec("CANCEL"))
+    _wrap(BetfairExecution, "execute_update", mk_exec("UPDATE"))
+    _wrap(BetfairExecution, "execute_replace", mk_exec("REPLACE"))
 
     # ---- simulated placement / fragments (C05, C06) -----------------------------------------
     def mk_place(orig):
